@@ -55,6 +55,46 @@ def build(row, variant):
     return sim, rad
 
 
+def flyby_rows(viol):
+    """fast fly-bys: two planets on the same circle, one prograde and one retrograde, meet inside the first step while both end points of
+    the step are far outside the critical radius -- only the interpolation of the separation between the end points can find the
+    encounter.  The relative motion is a straight line to a very good approximation, so the pair must be flagged exactly when the
+    impact parameter is below 1.1 critical radii, whichever of the two roots of the interpolation polynomial the minimum is."""
+    n = 0
+    for sgn in (1, -1):
+        for tau in (0.25, 0.5, 0.75):
+            for b in (0.3, 0.8, 2.0, 3.0):
+                for axis in ("z", "r"):
+                    dt = 0.1 * sgn
+                    sim = rebound.Simulation()
+                    sim.integrator = "mercurius"
+                    sim.dt = dt
+                    sim.add(m=1.0, r=1e-4)
+                    rad = 0.02
+                    dc = 2.0 * rad
+                    th = 1.0 * tau * dt            # mean motion 1 at a = 1
+                    off = b * dc
+                    a2 = 1.0 + (off if axis == "r" else 0.0)
+                    v2 = math.sqrt(1.0 / a2)
+                    sim.add(m=1e-7, r=rad, x=math.cos(-th), y=math.sin(-th), z=0.0, vx=-math.sin(-th), vy=math.cos(-th), vz=0.0)
+                    sim.add(m=1e-7, r=rad, x=a2 * math.cos(th), y=a2 * math.sin(th), z=(off if axis == "z" else 0.0),
+                            vx=v2 * math.sin(th), vy=-v2 * math.cos(th), vz=0.0)
+                    sim.move_to_com()
+                    try:
+                        sim.step()
+                    except Exception as e:   # noqa: BLE001
+                        viol.append({"row": {"n": 3, "na": -1, "tt": 0, "cl": [1, 1], "sep": int(100 * b)}, "variant": {"flyby": True, "dt": dt, "tau": tau, "offset": axis}, "clause": "error", "what": str(e)[:100]})
+                        continue
+                    n += 1
+                    rim = sim.ri_mercurius
+                    want = 3 if b < 1.1 else 1
+                    if int(rim._encounter_N) != want:
+                        viol.append({"row": {"n": 3, "na": -1, "tt": 0, "cl": [1, 1], "sep": int(100 * b)},
+                                     "variant": {"flyby": True, "dt": dt, "closest_approach_at_fraction_of_step": tau, "offset": axis},
+                                     "clause": "bookkeeping", "got": {"encN": int(rim._encounter_N)}, "want": {"encN": want}})
+    return n
+
+
 def main():
     rows = [json.loads(l) for l in open(sys.argv[1]) if l.strip()]
     out, stride, seed = sys.argv[2], int(sys.argv[3]), int(sys.argv[4])
@@ -93,7 +133,8 @@ def main():
         nsteps = 2 if variant.get("second") else 1
         if not fin or sim.N != row["n"] or rim.mode != 0 or abs(sim.t - nsteps * sim.dt) > 1e-15:
             viol.append({"row": row, "variant": variant, "clause": "step", "what": "finite=%s N=%d mode=%d t=%r dt=%r" % (fin, sim.N, rim.mode, sim.t, sim.dt)})
-    json.dump({"rows": done, "of": len(rows), "violations": viol[:40], "nviol": len(viol)}, open(out, "w"))
+    nfly = flyby_rows(viol)
+    json.dump({"rows": done, "of": len(rows), "flybys": nfly, "violations": viol[:40], "nviol": len(viol)}, open(out, "w"))
 
 
 if __name__ == "__main__":
